@@ -2,7 +2,8 @@
 from .pdb import strip, walk, loc
 from .terms import Ctx, num, show
 from .common import P, F, SIZE, NE, effects, effective_guards, is_zero_term
-from .guards import for_range
+from .guards import for_range as raw_for_range
+from .common import for_range_total as for_range
 from .c06 import check_walks, check_transpose, S, ROWS, COLS, NNZ, VAL, RI, CS
 
 LEVEL = "other"
